@@ -97,7 +97,7 @@ type PeerOp struct {
 
 // PeerPolicy: how a raw peer reacts to what the gateway sends.
 type PeerPolicy struct {
-	Register   string `json:"register,omitempty"`  // "accept" (default) | "reject" | "ignore"
+	Register   string `json:"register,omitempty"`  // "accept" (default) | "reject" | "ignore" | "accept-stale-id" (REGACK names another id)
 	Puback     string `json:"puback,omitempty"`    // "accept" (default) | "reject" | "ignore"
 	QoS2       string `json:"qos2,omitempty"`      // "full" (default) | "ignore" | "norel"(PUBREC only)
 	Will       string `json:"will,omitempty"`      // "answer" (default) | "ignore"
@@ -228,6 +228,9 @@ type TXPlan struct {
 	Max     uint16   `json:"max,omitempty"`
 	CallbackFailAt int `json:"cb_fail_at,omitempty"` // retry callback returns an error on its n-th call (0 = never)
 	CancelAtNs int64 `json:"cancel_at_ns,omitempty"` // ctx cancel (0 = never)
+	// Pauses: [from, to) windows of virtual time in which RetryTransaction.Paused reports true (the
+	// peer cannot answer: delays that expire meanwhile are neither retried nor counted)
+	Pauses [][2]int64 `json:"pauses,omitempty"`
 }
 
 type TXOp struct {
